@@ -823,7 +823,8 @@ def verify_derivation(obs, world, cname, dname, contract, pid, timeout=20000, it
     if not paths:
         obs.append(Ob(f"E1/{base}", "proof", ERROR, detail="no paths"))
         return
-    comps = components_for(cname)
+    rcls = contract.result_class(cname)  # views / invariant / freshness are those of the RESULT's class
+    comps = components_for(rcls)
     for i_, p in enumerate(paths):
         i = i_ if focus_loop is None else f"{i_}@L{focus_loop}"  # path labels stay unique across the per-loop tasks
         hd = p.handles
@@ -888,10 +889,10 @@ def verify_derivation(obs, world, cname, dname, contract, pid, timeout=20000, it
                     g_ = guard(vR, *pts) if guard is not None else z3.BoolVal(True)
                     emit(pid, f"result-view/{cn}", [*bond_norm(pts, sorts), g_, getter(vR, *pts) != exp], f"view component {cn} of the result differs from the reference", skolems=pts)
             if "wf" in want:
-                for wname, vs, body, _ in GM.wf_raw(vR, cname, tag="n", bound=alloc_top(h1)):
+                for wname, vs, body, _ in GM.wf_raw(vR, rcls, tag="n", bound=alloc_top(h1)):
                     emit(pid, f"result-wf/{wname}", [z3.Not(body)], f"result violates {wname}", skolems=vs)
             if "fresh" in want and contract.result_is_new:
-                for fname, vs, body in fresh_clauses(vR, h0.A0, cname):
+                for fname, vs, body in fresh_clauses(vR, h0.A0, rcls):
                     emit("C10", f"fresh/{fname}", [z3.Not(body)], f"result shares a mutable object with its source ({fname})", skolems=vs)
             if "source" in want and contract.source_untouched:
                 emit(pid if pid != "C10" else "C10", "source-untouched", [z3.Not(unchanged(h0, h1, g0, g1))], "the derivation modified its source")
